@@ -30,6 +30,11 @@ type Violation struct {
 	// report: the detector prints each racing stack pair only once), so it is not
 	// re-executed for stability.
 	Once bool `json:"once,omitempty"`
+	// Alt lists further witnesses under which the same fact may be listed as a known
+	// finding: for a data race, the pairs formed with the CALLERS of the innermost
+	// functions (a recorded race keeps its identity when a helper is extracted from, or
+	// inlined into, one of the racing functions).
+	Alt []string `json:"alt_witnesses,omitempty"`
 }
 
 func (v Violation) Key() string { return v.Prop + "|" + v.Assert + "|" + v.Witness }
@@ -270,6 +275,13 @@ func (k *KnownFindings) Match(v Violation) string {
 	for _, f := range k.Findings {
 		if f.Property == v.Prop && assertMatch(f.Assert, v.Assert) && f.Witness == v.Witness {
 			return f.ID
+		}
+	}
+	for _, alt := range v.Alt {
+		for _, f := range k.Findings {
+			if f.Property == v.Prop && assertMatch(f.Assert, v.Assert) && f.Witness == alt {
+				return f.ID
+			}
 		}
 	}
 	return ""
